@@ -22,9 +22,27 @@ A configuration (``cfg``, a JSON-able dict) fixes
            element and a dtml-try around the inner loop handles it: the outer window and links read afterwards
            must be what they were)
   items    int | str | pair (key,value) | mapping (+ mapping option) | obj;  nopush: no_push_item option
-A *render* of a configuration additionally fixes the value form of each variable-named parameter:
-  i int, s text (str(int), as a form/query string delivers it), c callable returning int, C callable returning text.
+  seqorder the options that change the ORDER in which the sequence is shown, combined with the batch: None |
+           reverse | rexpr1 / rexpr0 (reverse_expr="1" / "0") | rexprv (reverse_expr="rv", rv given per render) |
+           sort (sort=sequence-item, or sort=v for mapping / object items) | sort+reverse | sortx (sort_expr="sx",
+           sx given per render) | sortx+rexprv | desc (sort="v/cmp/desc").  DT_In docstring: "reverse -- Reverse
+           the sequence (may be combined with sort)", "reverse_expr -- ... calculate the need of reversing on the
+           fly"; property C13: an empty sort or sort=sequence-item orders by the element (the key of 2-tuples).
+           The window is then a window over the SHOWN order: element number k is the k-th element of that order.
+A *render* of a configuration additionally fixes
+  forms    the value form of each variable-named parameter: i int, s text (str(int), as a form/query string
+           delivers it), c callable returning int, C callable returning text;
+  content  what the elements ARE ('name:salt'): num (element k is k) | perm (a permutation of 1..n, so that sorting
+           and reversing are visible) | none (every element is None) | falsy (None, 0, '', (), 0.0, False in turn) |
+           holes (numbers with None in between).  The statement speaks of elements and of whether elements
+           remain / precede, never of their values, so the window and the links must be the same for all of them;
+           the item shown for number k must be the k-th element of the shown order.  Object elements are as
+           false as their value.
+  container list | tuple | iter (counting iterator) | seqobj (a sequence class of the caller's own: subscription
+           and length only)
+  rv       the value of the reverse_expr variable (rexprv orders), changing between the renders of one template.
 """
+import random
 from collections import deque
 
 from vlib.common import ProbeIter
@@ -44,11 +62,16 @@ NESTED = ('nested', 'nestfault')
 SEQFORMS = ('seq', 'name=', 'shorthand', 'expr=')
 ITEMS = ('int', 'str', 'pair', 'mapping', 'obj')
 FORMS = 'iscC'
+SEQORDERS = (None, 'reverse', 'rexpr1', 'rexpr0', 'rexprv', 'sort', 'sort+reverse', 'sortx', 'sortx+rexprv', 'desc')
+CONTENTS = ('num', 'perm', 'none', 'falsy', 'holes')
+SORTABLE = ('num', 'perm')
+FALSY = (None, 0, '', (), 0.0, False)
+RV_VALUES = (0, 1, '', 'yes', None, True, False, [], [0])     # JSON-able values of the reverse_expr variable
 INNER = [7, 8, 9, 10, 11]                   # the nested loop's own sequence: start=2 size=2 -> 2,3 and next at 4
 INNER_OUT = {'nested': '{2,3,N4}', 'nestfault': '{caught}'}
 
 DEFAULT_CFG = {'how': 'VVVVV', 'quote': False, 'order': 0, 'seqform': 'seq', 'prefix': None, 'mask': 0,
-               'layout': 'full', 'items': 'int', 'nopush': False}
+               'layout': 'full', 'items': 'int', 'nopush': False, 'seqorder': None}
 
 
 def cfg_of(**kw):
@@ -58,7 +81,52 @@ def cfg_of(**kw):
 
 
 def cfg_key(cfg):
-    return '%(how)s/%(seqform)s/%(layout)s/%(items)s/p=%(prefix)s:%(mask)x/q%(quote)d/o%(order)d/n%(nopush)d' % cfg
+    cfg = dict(DEFAULT_CFG, **cfg)
+    return ('%(how)s/%(seqform)s/%(layout)s/%(items)s/p=%(prefix)s:%(mask)x/q%(quote)d/o%(order)d/n%(nopush)d'
+            '/s=%(seqorder)s' % cfg)
+
+
+def order_attrs(cfg, q='%s'):
+    """The attributes that spell the sequence order of a configuration."""
+    so = cfg.get('seqorder')
+    if not so:
+        return []
+    key = 'v' if cfg['items'] in ('mapping', 'obj') else 'sequence-item'
+    out = []
+    for part in so.split('+'):
+        if part == 'reverse':
+            out.append('reverse')
+        elif part == 'rexpr1':
+            out.append('reverse_expr="1"')
+        elif part == 'rexpr0':
+            out.append('reverse_expr="0"')
+        elif part == 'rexprv':
+            out.append('reverse_expr="rv"')
+        elif part == 'sort':
+            out.append('sort=%s' % (q % key))
+        elif part == 'sortx':
+            out.append('sort_expr="sx"')
+        elif part == 'desc':
+            out.append('sort="v/cmp/desc"')
+        else:
+            raise ValueError(so)
+    return out
+
+
+def sorts(seqorder):
+    return bool(seqorder) and ('sort' in seqorder or seqorder == 'desc')
+
+
+def reverses(seqorder, rv):
+    """Is the (possibly sorted) sequence shown in reverse?  rv: the value of the reverse_expr variable."""
+    if not seqorder:
+        return False
+    parts = seqorder.split('+')
+    if 'reverse' in parts or 'rexpr1' in parts:
+        return True
+    if 'rexprv' in parts:
+        return bool(rv)
+    return False
 
 
 def spelled(name, prefix, use_prefix):
@@ -144,6 +212,7 @@ def build_source(cfg, vals):
         attrs.append('mapping')
     if cfg['nopush']:
         attrs.append('no_push_item')
+    attrs.extend(order_attrs(cfg, q))
     o = cfg['order']
     if attrs:
         r = (o // 2) % len(attrs)
@@ -167,35 +236,137 @@ def normalise(cfg, vals):
         c['nopush'] = False             # the element's own variable is only reachable when the element is pushed
     if not c['prefix']:
         c['mask'] = 0
+    if c.get('seqorder') == 'desc' and c['items'] not in ('mapping', 'obj'):
+        c['seqorder'] = 'sort+reverse'  # the key/function/direction spelling needs a named key
+    c.setdefault('seqorder', None)
     return c
 
 
 class Rec:
+    """An object element carrying v; it is as true or false as its value (a false OBJECT is an element too)."""
+
     def __init__(self, v):
         self.v = v
 
+    def __bool__(self):
+        return bool(self.v)
 
-def make_item(kind):
+
+class SeqObj:
+    """A sequence type of the caller's own: subscription (list semantics, IndexError past either end) and a
+    length, nothing else -- neither a list / tuple nor an iterator."""
+
+    def __init__(self, els):
+        self._els = els
+
+    def __len__(self):
+        return len(self._els)
+
+    def __getitem__(self, i):
+        if not isinstance(i, int):
+            raise TypeError('sequence index must be an int, not %s' % type(i).__name__)
+        return self._els[i]
+
+
+def content_values(content, length):
+    """The values of elements 1..length for a content spec 'name:salt' (a pure function: replayable)."""
+    name, _, salt = (content or 'num').partition(':')
+    salt = int(salt or 0)
+    if name == 'num':
+        return [i + 1 for i in range(length)]
+    if name == 'perm':
+        vals = [i + 1 for i in range(length)]
+        random.Random(salt * 1009 + length).shuffle(vals)
+        if length > 1 and vals == sorted(vals):
+            vals[0], vals[-1] = vals[-1], vals[0]
+        return vals
+    if name == 'none':
+        return [None] * length
+    if name == 'falsy':
+        return [FALSY[(i + salt) % len(FALSY)] for i in range(length)]
+    if name == 'holes':
+        m = 2 + salt % 2
+        return [None if (i + salt // 2) % m == 0 else i + 1 for i in range(length)]
+    raise ValueError(content)
+
+
+def sortable_value(v):
+    return isinstance(v, int) and not isinstance(v, bool)
+
+
+def wrap(kind, v, i):
+    """The element that carries value v at input position i (0-based) for an item kind."""
     if kind == 'int':
-        return lambda i: i + 1
+        return v                        # the bare value (an int for the num / perm contents)
     if kind == 'str':
-        return lambda i: str(i + 1)
+        return str(v) if v else ''
     if kind == 'pair':
-        return lambda i: ((i + 1) * 10, i + 1)
+        return ((v if sortable_value(v) else i + 1) * 10, v)
     if kind == 'mapping':
-        return lambda i: {'v': i + 1}
+        return {'v': v}
     if kind == 'obj':
-        return lambda i: Rec(i + 1)
+        return Rec(v)
     raise ValueError(kind)
 
 
-def make_seq(length, container, kind='int'):
-    mk = make_item(kind)
+def shown_text(kind, v):
+    """What the body prints for the element carrying v (sequence-item, or the element's own variable v)."""
+    if kind == 'str':
+        return str(v) if v else ''
+    return str(v)
+
+
+def make_elements(length, kind='int', content='num'):
+    return [wrap(kind, v, i) for i, v in enumerate(content_values(content, length))]
+
+
+def make_seq(length, container, kind='int', content='num'):
+    els = make_elements(length, kind, content)
     if container == 'list':
-        return [mk(i) for i in range(length)]
+        return els
     if container == 'tuple':
-        return tuple(mk(i) for i in range(length))
-    return ProbeIter(length, budget=length + 200, make=mk)
+        return tuple(els)
+    if container == 'seqobj':
+        return SeqObj(els)
+    return ProbeIter(length, budget=length + 200, make=els.__getitem__)
+
+
+def expected_items(length, kind='int', content='num', seqorder=None, rv=None):
+    """Model of the shown order: the text printed for element numbers 1..length.  Written from the option
+    documentation: sort orders by the element (text order for text elements, the key of (key,value) pairs --
+    here 10*value) or by the named key v, ascending, desc inverted; reverse shows the exact reverse of that."""
+    vals = content_values(content, length)
+    if sorts(seqorder):
+        if not all(sortable_value(v) for v in vals):
+            raise ValueError('sort order over an unsortable content')
+        if kind == 'str':
+            vals.sort(key=str)
+        else:
+            vals.sort()
+        if seqorder == 'desc':
+            vals.reverse()
+    if reverses(seqorder, rv):
+        vals.reverse()
+    return [shown_text(kind, v) for v in vals]
+
+
+def draw_content(rng, cfg, p_num=0.4):
+    """Content of one render: sortable where the configuration sorts."""
+    so = (cfg or {}).get('seqorder')
+    salt = rng.randrange(12)
+    if sorts(so):
+        return 'perm:%d' % salt if rng.random() < 0.8 else 'num'
+    r = rng.random()
+    if r < p_num:
+        return 'num'
+    if so and r < p_num + 0.25:
+        return 'perm:%d' % salt         # reversing is visible
+    return '%s:%d' % (rng.choice(['none', 'falsy', 'falsy', 'holes', 'holes', 'perm']), salt)
+
+
+def draw_rv(rng, cfg):
+    so = (cfg or {}).get('seqorder') or ''
+    return rng.choice(RV_VALUES) if 'rexprv' in so else None
 
 
 def make_value(v, form):
@@ -210,8 +381,15 @@ def make_value(v, form):
     raise ValueError(form)
 
 
-def namespace(vals, forms):
-    return {VARNAMES[k]: make_value(vals[k], forms[k]) for k in range(5)}
+def namespace(vals, forms, cfg=None, rv=None):
+    ns = {VARNAMES[k]: make_value(vals[k], forms[k]) for k in range(5)}
+    so = (cfg or {}).get('seqorder') or ''
+    if 'rexprv' in so:
+        ns['rv'] = rv
+    if 'sortx' in so:
+        # the computed list of sort options: empty = by the element, else the named key
+        ns['sx'] = 'v' if cfg['items'] in ('mapping', 'obj') else ''
+    return ns
 
 
 def split_nested(out):
@@ -245,6 +423,7 @@ class T:
         self.hist = deque(maxlen=3)
         self.renders = 0
         self.last_text = None               # (vals, forms) of the last render that passed a text value
+        self.last_shown_reversed = None     # was the last render of this template shown in reverse?
 
 
 def random_forms(rng):
@@ -269,7 +448,8 @@ def random_cfg(rng):
             'prefix': prefix, 'mask': mask,
             'layout': rng.choice(LAYOUTS),
             'items': rng.choice(ITEMS),
-            'nopush': rng.random() < 0.2}
+            'nopush': rng.random() < 0.2,
+            'seqorder': rng.choice((None,) * (len(SEQORDERS) - 1) + SEQORDERS[1:])}
 
 
 def designed_cfgs():
@@ -296,4 +476,16 @@ def designed_cfgs():
         ('objects-named', cfg_of(items='obj', seqform='name=', order=8)),
         ('start-size-only', cfg_of(how='VAVAA')),                     # "typically, only start and size"
         ('strings-end-absent', cfg_of(how='VAVVV', items='str')),
+        # the order options combined with the batch: the window is over the shown order
+        ('reverse', cfg_of(seqorder='reverse')),
+        ('reverse-expr-var', cfg_of(seqorder='rexprv', order=2)),       # reversal decided per render
+        ('reverse-expr-false-edge', cfg_of(seqorder='rexpr0', layout='edge')),
+        ('sort-reverse', cfg_of(seqorder='sort+reverse', order=7)),
+        ('sort-strings', cfg_of(seqorder='sort', items='str', quote=True)),
+        ('reverse-sparse-prefix', cfg_of(seqorder='rexpr1', layout='sparse', prefix='p', mask=A)),
+        ('sort-expr-mapping-reverse-expr', cfg_of(seqorder='sortx+rexprv', items='mapping', seqform='expr=')),
+        ('desc-objects', cfg_of(seqorder='desc', items='obj', seqform='name=')),
+        ('reverse-start-size-only', cfg_of(seqorder='reverse', how='VAVAA')),
+        ('reverse-nested-pairs', cfg_of(seqorder='reverse', layout='nested', items='pair')),
+        ('sort-expr-pairs', cfg_of(seqorder='sortx', items='pair', order=4)),
     ]
